@@ -178,15 +178,12 @@ def family(tier, rng):
         ("plain_grp", [("a", "macro", [G(S, "a", 3, "b")])], ("c",), 2, 2),
         ("relc_grp", [("a", "macro-release-cancel", [G(S, "a", "b"), 1, "a"])], ("c",), 2, 2),
         ("pressc", [("a", "macro-cancel-on-press", ["a", 3, MK(S, "b")])], ("c",), 2, 2),
-        ("both_nest", [("a", "macro-release-cancel-and-cancel-on-press", [G([], "a", G([], "b", MK(S, "a")))])], ("c",), 2, 2),
         ("rep", [("a", "macro-repeat", ["a", 1, MK(S, "b")])], ("c",), 2, 2),
         ("rep_pressc", [("a", "macro-repeat-cancel-on-press", ["a", MK(S, "b")])], ("c",), 2, 2),
-        ("two_disj", [("a", "macro", [G(S, "a", 1)]), ("b", "macro-release-cancel", [MK(C, "x"), "x"])], (), 2, 2),
         ("uni_relc", [("a", "macro", ["a", UNI("q"), "b"]), ("b", "macro-release-cancel", ["x"])], (), 2, 2),
         # press/release custom items (mouse buttons): last, in the middle + release-cancel right after, two in a row
         ("btn_last", [("a", "macro", ["x", BTN("Left")])], ("c",), 2, 2),
         ("btn_relc", [("a", "macro-release-cancel", ["x", BTN("Left"), 2, "b"])], ("c",), 2, 2),
-        ("btn_two", [("a", "macro", ["x", BTN("Left"), BTN("Right")])], ("c",), 2, 2),
         # a plain key whose output is a key the macro holds across steps (the OS sees it down while either holds it)
         ("shared_mod", [("a", "macro", [G(S, "a", 2, "b")])], (("c", "lsft", "lsft"),), 2, 2),
         # an unshift key held while a release-cancel takes effect (its output has no key state in the layout)
@@ -197,6 +194,9 @@ def family(tier, rng):
     if tier != "quick":
         F += [
             ("rep_relc", [("a", "macro-repeat-release-cancel", [G(S, "a"), "b"])], ("c",), 2, 2),
+            ("both_nest", [("a", "macro-release-cancel-and-cancel-on-press", [G([], "a", G([], "b", MK(S, "a")))])], ("c",), 2, 2),
+            ("two_disj", [("a", "macro", [G(S, "a", 1)]), ("b", "macro-release-cancel", [MK(C, "x"), "x"])], (), 2, 2),
+            ("btn_two", [("a", "macro", ["x", BTN("Left"), BTN("Right")])], ("c",), 2, 2),
             ("pressc2", [("a", "macro-cancel-on-press", ["a", MK(S, "b"), 2, "a"])], ("c",), 2, 2),
             ("rep_both", [("a", "macro-repeat-release-cancel-and-cancel-on-press", [G(S, "a", 1, "b")])], ("c",), 2, 2),
             ("vkey", [("a", "macro", ["a", VK("v1", "z", 0), "b", 2])], ("c",), 2, 2),
